@@ -137,6 +137,13 @@ def run(ck: vlib.Check):
                 pos += len(s_) + 1
             payload = struct.pack("H", nids) + b"".join(struct.pack("H", o) for o in offs) + b"".join(s_ + b"\0" for s_ in strs)
             cases.insert(0, (S.frame(b"VER ", b"\xcd\x00") + S.frame(b"STR ", payload) + S.frame(b"TAIL", b"x"), "str-over-64k"))
+    # record arrays longer than any editor writes (the decoder takes every whole number of records): 255, 256, 300, 1000 locations;
+    # 1, 30 and 200 triggers
+    for nrec in (255, 256, 300, 1000):
+        body = bytes(((7 * i) % 250) + 1 for i in range(20 * nrec))
+        cases.insert(0, (S.frame(b"VER ", b"\xcd\x00") + S.frame(b"MRGN", body) + S.frame(b"TAIL", b"x"), "long-record-array"))
+    for ntr in (30, 200):
+        cases.insert(0, (S.frame(b"TRIG", bytes(2400 * ntr)) + S.frame(b"TAIL", b"x"), "long-record-array"))
     for _ in range(n):
         cases.append(S.gen_malformed_chk(rng, small_fx[:1] if rng.random() < 0.02 else []))
     for _ in range(n // 10):
